@@ -191,7 +191,7 @@ def color_graph_section(ctx):
 
 def contextual_orphan_section(ctx):
     """a contextual anchor (*key, with a GPOS_Context entry in public.objectLibs) on a base / ligature / mark glyph whose key
-    no mark glyph of the font attaches to: the font must compile (fixed finding F25: KeyError) and the ordinary anchors must
+    no MARK glyph of the font attaches to (the only glyph with the _key anchor is categorised as a base): the font must compile (fixed finding F25: KeyError) and the ordinary anchors must
     attach exactly as without the contextual anchor"""
     import ufo2ft
     from fontTools.ttLib import TTFont
@@ -208,7 +208,11 @@ def contextual_orphan_section(ctx):
                   {"name": "acutecomb", "unicodes": [0x301], "width": 0, "contours": [], "components": [], "cat": "mark",
                    "anchors": [("_top", Fr(0), Fr(480)), ("top", Fr(0), Fr(650))]},
                   {"name": "dotbelowcomb", "unicodes": [0x323], "width": 0, "contours": [], "components": [], "cat": "mark",
-                   "anchors": [("_bottom", Fr(0), Fr(-20))]}]
+                   "anchors": [("_bottom", Fr(0), Fr(-20))]},
+                  # the only glyph with an _ogonek anchor is NOT a mark by its category: the anchor name pairs up, but no
+                  # mark class exists for it
+                  {"name": "ogonek", "unicodes": [0x2DB], "width": 300, "contours": [], "components": [], "cat": "base",
+                   "anchors": [("_ogonek", Fr(150), Fr(0))]}]
             if with_ctx:
                 g = {"base": gl[0], "ligature": gl[1], "mark": gl[2]}[where]
                 nm = "*" + key + ("_1" if where == "ligature" else "")
